@@ -95,10 +95,10 @@ package z
 //@   ensures (result1 == nil || result1 == NewFile) && result0 != nil && gcFresh(result0) && len(result0.Data) == sz && gcFresh(result0.Data) && forall i int :: 0 <= i && i < sz ==> result0.Data[i] == 0
 
 //@ func (m *MmapFile) Truncate(maxSz int64) error
-//@   trusted OS: ftruncate + mremap keep the first min(old,new) bytes, extend with zeroes
+//@   trusted OS: ftruncate + mremap keep the first min(old,new) bytes, extend with zeroes; the remapped region is modelled as a new allocation (the old mapping is dead)
 //@   requires m != nil
 //@   modifies m.Data
-//@   ensures gcSameArray(m.Data, old(m.Data)) || gcFresh(m.Data)
+//@   ensures gcFresh(m.Data)
 //@   ensures result == nil && len(m.Data) == int(maxSz) && forall i int :: 0 <= i && i < old(len(m.Data)) && i < int(maxSz) ==> m.Data[i] == old(m.Data[i])
 
 //@ spec GcWfBuffer(b *Buffer) bool = b != nil && len(b.buf) > 0 && len(b.buf) == b.curSz && b.padding <= b.offset && b.offset <= uint64(b.curSz) && b.maxSz >= 0 && b.autoMmapAfter >= 0 && (b.bufType == UseCalloc || (b.bufType == UseMmap && b.mmapFile != nil && gcSameRef(b.buf, b.mmapFile.Data)))
@@ -112,8 +112,8 @@ package z
 //@   ensures [C11] #room int(b.offset)+n <= b.curSz
 //@   ensures [C11] #prefix forall i int :: 0 <= i && uint64(i) < b.offset ==> b.buf[i] == old(b.buf[i])
 //@   ensures [C11] #limit !(b.maxSz > 0 && int(b.offset)+n > b.maxSz)
-//@   ensures [C11] #storage (gcSameArray(b.buf, old(b.buf)) || gcFresh(b.buf)) && (b.mmapFile == old(b.mmapFile) || gcFresh(b.mmapFile)) && b.curSz <= old(b.curSz)+(1<<41) && b.maxSz == old(b.maxSz)
-//@   ensures [C11] #stable int(old(b.offset))+n < old(b.curSz) ==> gcSameArray(b.buf, old(b.buf)) && b.curSz == old(b.curSz)
+//@   ensures [C11] #storage (gcSameRef(b.buf, old(b.buf)) || gcFresh(b.buf)) && (b.mmapFile == old(b.mmapFile) || gcFresh(b.mmapFile)) && b.curSz <= old(b.curSz)+(1<<41) && b.maxSz == old(b.maxSz)
+//@   ensures [C11] #stable int(old(b.offset))+n < old(b.curSz) ==> gcSameRef(b.buf, old(b.buf)) && b.curSz == old(b.curSz)
 
 //@ spec GcBufRoom(b *Buffer, k int) bool = b.curSz < (1<<50)-k*(1<<41) && b.maxSz < 1<<50
 //@ spec GcBE64(b *Buffer, off int) uint64 = binary.BigEndian.Uint64(b.buf[off:])
@@ -123,9 +123,9 @@ package z
 //@   panics_if [C11] #maxsize GcGrowPanics(b, n)
 //@   modifies b.buf, b.curSz, b.bufType, b.mmapFile, b.mmapFile.Data, b.offset
 //@   ensures [C11] #wf GcWfBuffer(b) && b.offset == old(b.offset)+uint64(n) && b.padding == old(b.padding) && b.maxSz == old(b.maxSz)
-//@   ensures [C11] #view gcSliceAt(result, b.buf, int(old(b.offset))) && len(result) == n
+//@   ensures [C11] #view gcSliceAt(result, b.buf, int(old(b.offset))) && len(result) == n && gcWithin(result, b.buf)
 //@   ensures [C11] #prefix forall i int :: 0 <= i && uint64(i) < old(b.offset) ==> b.buf[i] == old(b.buf[i])
-//@   ensures [C11] #storage (gcSameArray(b.buf, old(b.buf)) || gcFresh(b.buf)) && (b.mmapFile == old(b.mmapFile) || gcFresh(b.mmapFile)) && b.curSz <= old(b.curSz)+(1<<41) && b.maxSz == old(b.maxSz)
+//@   ensures [C11] #storage (gcSameRef(b.buf, old(b.buf)) || gcFresh(b.buf)) && (b.mmapFile == old(b.mmapFile) || gcFresh(b.mmapFile)) && b.curSz <= old(b.curSz)+(1<<41) && b.maxSz == old(b.maxSz)
 
 //@ func (b *Buffer) AllocateOffset(n int) int
 //@   requires GcWfBuffer(b) && GcBufRoom(b, 1) && 0 <= n && n < 1<<40
@@ -133,7 +133,7 @@ package z
 //@   modifies b.buf, b.curSz, b.bufType, b.mmapFile, b.mmapFile.Data, b.offset
 //@   ensures [C11] #wf GcWfBuffer(b) && b.offset == old(b.offset)+uint64(n) && b.padding == old(b.padding) && result == int(old(b.offset))
 //@   ensures [C11] #prefix forall i int :: 0 <= i && uint64(i) < old(b.offset) ==> b.buf[i] == old(b.buf[i])
-//@   ensures [C11] #storage (gcSameArray(b.buf, old(b.buf)) || gcFresh(b.buf)) && (b.mmapFile == old(b.mmapFile) || gcFresh(b.mmapFile)) && b.curSz <= old(b.curSz)+(1<<41) && b.maxSz == old(b.maxSz)
+//@   ensures [C11] #storage (gcSameRef(b.buf, old(b.buf)) || gcFresh(b.buf)) && (b.mmapFile == old(b.mmapFile) || gcFresh(b.mmapFile)) && b.curSz <= old(b.curSz)+(1<<41) && b.maxSz == old(b.maxSz)
 
 //@ func (b *Buffer) Write(p []byte) (n int, err error)
 //@   requires GcWfBuffer(b) && GcBufRoom(b, 1) && len(p) < 1<<40 && !gcSameArray(p, b.buf)
@@ -142,7 +142,7 @@ package z
 //@   ensures [C11] #wf GcWfBuffer(b) && b.offset == old(b.offset)+uint64(len(p)) && b.padding == old(b.padding) && n == len(p) && err == nil
 //@   ensures [C11] #appended forall i int :: 0 <= i && i < len(p) ==> b.buf[int(old(b.offset))+i] == p[i]
 //@   ensures [C11] #prefix forall i int :: 0 <= i && uint64(i) < old(b.offset) ==> b.buf[i] == old(b.buf[i])
-//@   ensures [C11] #storage (gcSameArray(b.buf, old(b.buf)) || gcFresh(b.buf)) && (b.mmapFile == old(b.mmapFile) || gcFresh(b.mmapFile)) && b.curSz <= old(b.curSz)+(1<<41) && b.maxSz == old(b.maxSz)
+//@   ensures [C11] #storage (gcSameRef(b.buf, old(b.buf)) || gcFresh(b.buf)) && (b.mmapFile == old(b.mmapFile) || gcFresh(b.mmapFile)) && b.curSz <= old(b.curSz)+(1<<41) && b.maxSz == old(b.maxSz)
 
 //@ func (b *Buffer) Bytes() []byte
 //@   requires GcWfBuffer(b)
@@ -164,7 +164,7 @@ package z
 //@   ensures [C11] #wf GcWfBuffer(b) && b.offset == old(b.offset)+8 && b.padding == old(b.padding) && b.maxSz == old(b.maxSz)
 //@   ensures [C11] #len GcBE64(b, int(old(b.offset))) == uint64(sz)
 //@   ensures [C11] #prefix forall i int :: 0 <= i && uint64(i) < old(b.offset) ==> b.buf[i] == old(b.buf[i])
-//@   ensures [C11] #storage (gcSameArray(b.buf, old(b.buf)) || gcFresh(b.buf)) && (b.mmapFile == old(b.mmapFile) || gcFresh(b.mmapFile)) && b.curSz <= old(b.curSz)+(1<<41) && b.maxSz == old(b.maxSz)
+//@   ensures [C11] #storage (gcSameRef(b.buf, old(b.buf)) || gcFresh(b.buf)) && (b.mmapFile == old(b.mmapFile) || gcFresh(b.mmapFile)) && b.curSz <= old(b.curSz)+(1<<41) && b.maxSz == old(b.maxSz)
 
 //@ func (b *Buffer) SliceAllocate(sz int) []byte
 //@   requires GcWfBuffer(b) && GcBufRoom(b, 3) && 0 <= sz && sz < 1<<39
@@ -172,9 +172,9 @@ package z
 //@   modifies b.buf, b.buf[*], b.curSz, b.bufType, b.mmapFile, b.mmapFile.Data, b.offset
 //@   ensures [C11] #wf GcWfBuffer(b) && b.offset == old(b.offset)+8+uint64(sz) && b.padding == old(b.padding)
 //@   ensures [C11] #len GcBE64(b, int(old(b.offset))) == uint64(sz)
-//@   ensures [C11] #view gcSliceAt(result, b.buf, int(old(b.offset))+8) && len(result) == sz
+//@   ensures [C11] #view gcSliceAt(result, b.buf, int(old(b.offset))+8) && len(result) == sz && gcWithin(result, b.buf)
 //@   ensures [C11] #prefix forall i int :: 0 <= i && uint64(i) < old(b.offset) ==> b.buf[i] == old(b.buf[i])
-//@   ensures [C11] #storage (gcSameArray(b.buf, old(b.buf)) || gcFresh(b.buf)) && (b.mmapFile == old(b.mmapFile) || gcFresh(b.mmapFile)) && b.curSz <= old(b.curSz)+3*(1<<41) && b.maxSz == old(b.maxSz)
+//@   ensures [C11] #storage (gcSameRef(b.buf, old(b.buf)) || gcFresh(b.buf)) && (b.mmapFile == old(b.mmapFile) || gcFresh(b.mmapFile)) && b.curSz <= old(b.curSz)+3*(1<<41) && b.maxSz == old(b.maxSz)
 
 //@ func (b *Buffer) WriteSlice(slice []byte)
 //@   requires GcWfBuffer(b) && GcBufRoom(b, 3) && len(slice) < 1<<39 && !gcSameArray(slice, b.buf)
@@ -184,7 +184,7 @@ package z
 //@   ensures [C11] #len GcBE64(b, int(old(b.offset))) == uint64(len(slice))
 //@   ensures [C11] #payload forall i int :: 0 <= i && i < len(slice) ==> b.buf[int(old(b.offset))+8+i] == slice[i]
 //@   ensures [C11] #prefix forall i int :: 0 <= i && uint64(i) < old(b.offset) ==> b.buf[i] == old(b.buf[i])
-//@   ensures [C11] #storage (gcSameArray(b.buf, old(b.buf)) || gcFresh(b.buf)) && (b.mmapFile == old(b.mmapFile) || gcFresh(b.mmapFile)) && b.curSz <= old(b.curSz)+3*(1<<41) && b.maxSz == old(b.maxSz)
+//@   ensures [C11] #storage (gcSameRef(b.buf, old(b.buf)) || gcFresh(b.buf)) && (b.mmapFile == old(b.mmapFile) || gcFresh(b.mmapFile)) && b.curSz <= old(b.curSz)+3*(1<<41) && b.maxSz == old(b.maxSz)
 
 // Slice(offset) reads back what SliceAllocate/WriteSlice wrote at that offset.
 //@ func (b *Buffer) Slice(offset int) ([]byte, int)
@@ -265,3 +265,20 @@ package z
 //@   ensures [C10] #overwrite forall r int :: old(GcFirstGE(n, k, r)) && r < old(GcNumKeys(n)) && old(GcKey(n, r)) == k ==> numAdded == 0 && GcNumKeys(n) == old(GcNumKeys(n)) && GcKey(n, r) == k && GcVal(n, r) == v && forall i int :: 0 <= i && i < GcNumKeys(n) && i != r ==> GcKey(n, i) == old(GcKey(n, i)) && GcVal(n, i) == old(GcVal(n, i))
 //@   ensures [C10] #insert forall r int :: old(GcFirstGE(n, k, r)) && (r == old(GcNumKeys(n)) || old(GcKey(n, r)) != k) ==> numAdded == 1 && GcNumKeys(n) == old(GcNumKeys(n))+1 && GcKey(n, r) == k && GcVal(n, r) == v && (forall i int :: 0 <= i && i < r ==> GcKey(n, i) == old(GcKey(n, i)) && GcVal(n, i) == old(GcVal(n, i))) && forall i int :: r+1 <= i && i <= old(GcNumKeys(n)) ==> GcKey(n, i) == old(GcKey(n, i-1)) && GcVal(n, i) == old(GcVal(n, i-1))
 //@   ensures [C10] #meta n[2*maxKeys] == old(n[2*maxKeys]) && n[2*maxKeys+1]&0xFFFFFFFF00000000 == old(n[2*maxKeys+1])&0xFFFFFFFF00000000
+
+// compact drops the slots whose value is below lo, except the node's max key (kept so
+// that routing in the parent stays valid), and zeroes the freed tail.
+//@ func (n node) compact(lo uint64) int
+//@   requires GcWfNode(n)
+//@   modifies n[*]
+//@   loop 1 invariant #idx 0 <= left && left <= right && right <= N && N == old(GcNumKeys(n)) && N <= maxKeys && mk == old(ite(GcNumKeys(n) > 0, GcKey(n, GcNumKeys(n)-1), GcKey(n, 0)))
+//@   loop 1 invariant #meta n[2*maxKeys] == old(n[2*maxKeys]) && n[2*maxKeys+1] == old(n[2*maxKeys+1])
+//@   loop 1 invariant #rest forall i int :: right <= i && i < maxKeys ==> GcKey(n, i) == old(GcKey(n, i)) && GcVal(n, i) == old(GcVal(n, i))
+//@   loop 1 invariant #kept forall i int :: 0 <= i && i < left ==> GcKey(n, i) != 0 && (GcVal(n, i) >= lo || GcKey(n, i) == mk) && exists j int :: i <= j && j < right && GcKey(n, i) == old(GcKey(n, j)) && GcVal(n, i) == old(GcVal(n, j))
+//@   loop 1 invariant #sorted forall i, j int :: 0 <= i && i < j && j < left ==> GcKey(n, i) < GcKey(n, j)
+//@   loop 1 invariant #below forall i int :: 0 <= i && i < left ==> forall j int :: right <= j && j < N ==> GcKey(n, i) < old(GcKey(n, j))
+//@   ensures [C10] #wf GcWfNode(n)
+//@   ensures [C10] #kept forall i int :: 0 <= i && i < GcNumKeys(n) ==> GcVal(n, i) >= lo || GcKey(n, i) == old(ite(GcNumKeys(n) > 0, GcKey(n, GcNumKeys(n)-1), GcKey(n, 0)))
+//@   ensures [C10] #subset forall i int :: 0 <= i && i < GcNumKeys(n) ==> exists j int :: 0 <= j && j < old(GcNumKeys(n)) && GcKey(n, i) == old(GcKey(n, j)) && GcVal(n, i) == old(GcVal(n, j))
+//@   ensures [C10] #meta n[2*maxKeys] == old(n[2*maxKeys]) && n[2*maxKeys+1]&0xFFFFFFFF00000000 == old(n[2*maxKeys+1])&0xFFFFFFFF00000000
+//@   ensures [C10] #count result == 0 || result == GcNumKeys(n)
